@@ -177,7 +177,7 @@ def gpg_cleartext(signed, faketime=BEFORE_EXPIRY):
     Returns (text or None, good?)."""
     ft = ['--faked-system-time', faketime] if faketime else []
     p = subprocess.run([REAL_GPG, '--batch'] + ft + ['--status-fd', '2', '--decrypt'],
-                       input=signed.encode('utf8'), env=dict(os.environ, GNUPGHOME=signer_home(), TZ='UTC'),
+                       input=signed.encode('utf8', 'surrogateescape'), env=dict(os.environ, GNUPGHOME=signer_home(), TZ='UTC'),
                        capture_output=True, timeout=60)
     good = b'[GNUPG:] GOODSIG' in p.stderr and b'[GNUPG:] VALIDSIG' in p.stderr and p.returncode == 0
     gpg_cleartext.last_fpr = None
